@@ -322,6 +322,9 @@ pub struct EpCfg {
     pub proto_auto: bool,
     /// which protocol messages the application answers properly (sub/unsub); otherwise default service
     pub proto_default_service: bool,
+    /// servers: the protocol service, while handling a SUBSCRIBE, sends a QoS 1 publish through the sink and awaits
+    /// its acknowledgement before it answers (a handler that itself waits on the connection)
+    pub proto_sends: bool,
     pub ctl: CtlMode,
     /// v5 router: use `v5::Router` with resources "a" and "b" plus default
     pub router: bool,
@@ -370,6 +373,7 @@ impl EpCfg {
             handler_auto: false,
             proto_auto: true,
             proto_default_service: false,
+            proto_sends: false,
             ctl: CtlMode::None,
             router: false,
             client_keepalive: 0,
@@ -985,10 +989,18 @@ macro_rules! v5_parts {
         }
     };
 
-    let (log, pg, c) = ($h.log.clone(), $h.pgates.clone(), $cfg.clone());
+    let (log, pg, c, psink) = ($h.log.clone(), $h.pgates.clone(), $cfg.clone(), $h.sink.clone());
     let $protocol = move |msg: v5::ProtocolMessage| {
-        let (log, pg, _c) = (log.clone(), pg.clone(), c.clone());
+        let (log, pg, _c, psink) = (log.clone(), pg.clone(), c.clone(), psink.clone());
         async move {
+            if _c.proto_sends && matches!(&msg, v5::ProtocolMessage::Subscribe(_)) {
+                let sk = psink.borrow().clone();
+                if let Some(Sink::V5(sk)) = sk {
+                    log.push(Rec::Note("proto-send:start".into()));
+                    let r = sk.publish(ByteString::from_static("h")).send_at_least_once(Bytes::from_static(b"h")).await;
+                    log.push(Rec::Note(format!("proto-send:{}", if r.is_ok() { "ok" } else { "err" })));
+                }
+            }
             let (kind, pid) = match &msg {
                 v5::ProtocolMessage::Auth(_) => ("auth", 0),
                 v5::ProtocolMessage::PublishRelease(m) => ("pubrel", m.packet().packet_id.get()),
@@ -1083,10 +1095,18 @@ macro_rules! v3_parts {
         }
     };
 
-    let (log, pg) = ($h.log.clone(), $h.pgates.clone());
+    let (log, pg, c3, psink) = ($h.log.clone(), $h.pgates.clone(), $cfg.clone(), $h.sink.clone());
     let $protocol = move |msg: v3::ProtocolMessage| {
-        let (log, pg) = (log.clone(), pg.clone());
+        let (log, pg, c3, psink) = (log.clone(), pg.clone(), c3.clone(), psink.clone());
         async move {
+            if c3.proto_sends && matches!(&msg, v3::ProtocolMessage::Subscribe(_)) {
+                let sk = psink.borrow().clone();
+                if let Some(Sink::V3(sk)) = sk {
+                    log.push(Rec::Note("proto-send:start".into()));
+                    let r = sk.publish(ByteString::from_static("h")).send_at_least_once(Bytes::from_static(b"h")).await;
+                    log.push(Rec::Note(format!("proto-send:{}", if r.is_ok() { "ok" } else { "err" })));
+                }
+            }
             let (kind, pid) = match &msg {
                 v3::ProtocolMessage::PublishRelease(m) => ("pubrel", m.packet_id.get()),
                 v3::ProtocolMessage::Subscribe(m) => ("sub", { let _ = m; 0 }),
